@@ -34,6 +34,7 @@ import YtkProofs.PipelineDataWF
 import YtkProofs.MergeRel
 import YtkProofs.HeapPatch
 import YtkProofs.HeapSet
+import YtkProofs.HeapPatchFold
 import YtkProofs.Decisions
 import YtkModel.Generated.Constants
 
@@ -1193,6 +1194,55 @@ theorem nonvacuous_heap_setOp :
     r1.map (·.2) = some 6 ∧ r2.map (·.2) = some 8 ∧
     (r2.bind fun p => evalH p.1 4 ["t", "e1"]) = some 6 ∧
     (r2.bind fun p => evalH p.1 4 ["t", "e2"]) = some 8 := by
+  decide +kernel
+
+/-! ### n executions of one PatchOp, as a fold
+
+  `patchOpRuns op frm src root h ps` (YtkProofs/HeapPatchFold.lean) folds `patchOpDoH` over the
+  destination paths `ps` — the executions of ONE op object (or of its forEach clones: same op name,
+  `from`, value source), each starting from the heap the previous one left, whatever its outcome —
+  and records for each the heap `before`, the `path` and the result `res` (`after` = `res.1`). -/
+
+/-- THE n PLACED SUBTREES ARE PAIRWISE DISJOINT.  For ANY two executions i < j of the fold that both
+    succeeded (the ones in between, and all others, may fail or succeed), each started from a closed
+    heap with a resolvable value source: both attached a clone root (`ci` under the parent of the i-th
+    path, `cj` under the parent of the j-th), and EVERY cell of the subtree execution i placed (at its
+    attach time) is strictly BELOW every cell of the subtree execution j placed — no cell in common.
+    From `heap_patchOp_size_mono` (folded: `patchOpRuns_ordered`) and `heap_patchOp_runs_disjoint`. -/
+theorem heap_patchOp_runs_disjoint_fold (op : String) (frm : Option Path) (src : ValueSrc) (root : Addr)
+    (h0 : Heap) (ps : List Path) (hop : op = "add" ∨ op = "replace") (i j : Nat) (ei ej : PatchRun)
+    (ni nj : Addr) (hij : i < j) (hi : (patchOpRuns op frm src root h0 ps)[i]? = some ei)
+    (hj : (patchOpRuns op frm src root h0 ps)[j]? = some ej)
+    (hcli : ei.before.Closed) (hclj : ej.before.Closed) (hroot : root < ei.before.size)
+    (hsi : srcNode ei.before root src = some ni) (hsj : srcNode ej.before root src = some nj)
+    (hoki : ei.res.2 = .ok ()) (hokj : ej.res.2 = .ok ()) :
+    ∃ (ci cj pari parj : Addr),
+      stepH ei.after pari (lastSegment ei.path) = some ci ∧
+      stepH ej.after parj (lastSegment ej.path) = some cj ∧
+      ∀ b b', Reach ei.after ci b → Reach ej.after cj b' → b < b' := by
+  have hri := patchOpRuns_res op frm src root ps h0 ei (List.mem_of_getElem? hi)
+  have hrj := patchOpRuns_res op frm src root ps h0 ej (List.mem_of_getElem? hj)
+  have he1 : patchOpDoH op frm (some ei.path) src ei.before root = (ei.after, .ok ()) := by
+    rw [← hri]; exact Prod.ext rfl hoki
+  have he2 : patchOpDoH op frm (some ej.path) src ej.before root = (ej.after, .ok ()) := by
+    rw [← hrj]; exact Prod.ext rfl hokj
+  have hmid : ei.after.size ≤ ej.before.size := patchOpRuns_ordered op frm src root ps h0 i j ei ej hij hi hj
+  have hgrow : ei.before.size ≤ ei.after.size := by
+    have := heap_patchOp_size_mono op frm (some ei.path) src ei.before root
+    rw [he1] at this; exact this
+  exact heap_patchOp_runs_disjoint op frm ei.path ej.path src ei.before ei.after ej.before ej.after root ni nj hop
+    hcli hclj hroot (Nat.lt_of_lt_of_le hroot (Nat.le_trans hgrow hmid)) hsi hsj he1 he2 hmid
+
+/-- non-vacuity: THREE executions of the op with value node #2 on `qHeap`, at /t/e1, /t/e2, /t/e3: all
+    succeed, every start heap is closed, the source resolves, and the three placed subtrees are the
+    cell sets {6,5} · {8,7} · {10,9} -/
+theorem nonvacuous_heap_patchOp_runs_fold :
+    let runs := patchOpRuns "add" none (.imm 2) 4 qHeap [["t", "e1"], ["t", "e2"], ["t", "e3"]]
+    runs.length = 3 ∧
+    (∀ e ∈ runs, e.res.2 = .ok () ∧ srcNode e.before 4 (.imm 2) = some 2 ∧ 4 < e.before.size ∧
+      (e.before.cells.all fun c => c.kids.all fun k => decide (k < e.before.size)) = true) ∧
+    (runs.map fun e => (evalH e.after 4 e.path).map (reach e.after)) =
+      [some [6, 5], some [8, 7], some [10, 9]] := by
   decide +kernel
 
 end heap
